@@ -73,7 +73,7 @@ def load_orm(text, prefix="vorm"):
     mod.__file__ = f"<generated {name}>"
     sys.modules[name] = mod
     try:
-        exec(compile(text, mod.__file__, "exec"), mod.__dict__)
+        exec(compile(text, mod.__file__, "exec", dont_inherit=True), mod.__dict__)
     except Exception:
         sys.modules.pop(name, None)
         raise
